@@ -154,6 +154,8 @@ pub fn case_gen(reg: Arc<Reg>, eligible: Vec<usize>, opts: GenOpts) -> GenFn {
             alt_key_spellings: opts.alt_key_spellings,
             ..GenCfg::default()
         };
+        // deep but thin payloads for recursive target types (locations with dozens of components)
+        let cfg = if rng.random_range(0..40) == 0 { GenCfg { max_depth: [12, 25, 60][rng.random_range(0..3)], thin_from: 3, ..cfg } } else { cfg };
         let r: f64 = rng.random_range(0.0..1.0);
         let mut g = Gen::new(rng, cfg);
         let payload = if r < opts.deep {
